@@ -658,3 +658,23 @@ func FuncFullName(f *types.Func) string {
 	}
 	return name
 }
+
+// RootIdent returns the identifier an access path (x, x.f, x[i], *x, x.f[i].g) starts from.
+func RootIdent(e ast.Expr) *ast.Ident {
+	for {
+		switch x := ast.Unparen(e).(type) {
+		case *ast.Ident:
+			return x
+		case *ast.SelectorExpr:
+			e = x.X
+		case *ast.IndexExpr:
+			e = x.X
+		case *ast.StarExpr:
+			e = x.X
+		case *ast.SliceExpr:
+			e = x.X
+		default:
+			return nil
+		}
+	}
+}
